@@ -5,7 +5,7 @@
 From stdpp Require Import gmap list.
 From RecordUpdate Require Import RecordSet.
 Import RecordSetNotations.
-From Aldrin Require Import gen.BrokerConsts Broker.Model Broker.Run Broker.OutKinds Broker.EventProofs.
+From Aldrin Require Import gen.BrokerConsts Broker.Model Broker.Run Broker.OutKinds Broker.EventProofs Broker.SerialAlloc.
 From Coq Require Import Lia.
 Local Open Scope N_scope.
 
@@ -180,12 +180,14 @@ Definition forwarded_msg (callee_ver b : N) (sc : uuid) (fn : N) (fver : option 
   if 19 <=? callee_ver then CallFunction2 b sc fn fver v else CallFunction b sc fn v.
 
 (* the broker-side serial under the legality condition of Run.v *)
-Lemma pick_serial_legal s i : legal s i ->
-  pick_serial s (i_bserial i) =
-    Some (match i_bserial i with Some b => (b, next s) | None => (4294967296 + next s, next s + 1) end).
+Lemma pick_serial_legal s i : next s < 4294967296 -> legal s i ->
+  exists b nxt, pick_serial s (i_bserial i) = Some (b, nxt) /\ sm_choice s = Some (b, nxt) /\
+                calls s !! b = None /\ b < 4294967296.
 Proof.
-  intros (_ & _ & H & _). unfold pick_serial. destruct (i_bserial i) as [b|]; [|reflexivity].
-  destruct H as [H _]. rewrite bool_decide_eq_false_2; [reflexivity|]. rewrite H. intros [? ?]. discriminate.
+  intros Hn (_ & _ & [Hsz H] & _). destruct (sm_choice_is_Some s Hn Hsz) as [[b nxt] Hc].
+  destruct (sm_choice_Some s b nxt Hn Hc) as (Hv & Hb & _).
+  exists b, nxt. split; [|done]. apply pick_serial_Some. split; [done|].
+  destruct (i_bserial i) as [b'|]; [|by left]. right. destruct H as [nxt' H]. congruence.
 Qed.
 
 (* a call to a live service from a connection whose serial is not pending: the call is stored
